@@ -175,7 +175,7 @@ var c10Lens = []int{1, 15, 16, 17, 2047, 2048, 2049, 4096, c10Sectors * 2048}
 func TestC10(t *testing.T) {
 	r := NewReporter(t)
 	defer r.Done()
-	r.Rule("12-sector images with position-dependent content x 4 disc keys x every plain-region table with 2 regions (all border triples in [0,14]) and 3 regions (monotone borders) + count 255 + borders at 2^21-1..0xFFFFFFF0 sectors + clearly invalid tables + one sparse image of 4 GiB + 128 KiB read around the 4 GiB mark x {clearRegions 0/1} x underlying Read capped at {none,1,16,2047,2048} x op sequences of depth <= 2 over Read/Seek/ReadAt at sector/region borders +-1,+-16; oracle = reference AES-CBC written on raw block calls; distinct by (table, key, clear, cap, op sequence)")
+	r.Rule("12-sector images with position-dependent content x 4 disc keys x every plain-region table with 2 regions (all border triples in [0,14]) and 3 regions (monotone borders) + count 255 + borders at 2^21-1..0xFFFFFFF0 sectors + clearly invalid tables + 3k3y images with an embedded key opened through the serving filesystem for every valid table whose first plain region ends at sector 1..3 (the watermark area then lies partly in an encrypted region) + one sparse image of 4 GiB + 128 KiB read around the 4 GiB mark x {clearRegions 0/1} x underlying Read capped at {none,1,16,2047,2048} x op sequences of depth <= 2 over Read/Seek/ReadAt at sector/region borders +-1,+-16; oracle = reference AES-CBC written on raw block calls; distinct by (table, key, clear, cap, op sequence)")
 	dir := filepath.Join(scratchBase(), sprintf("verifh-c10-%d", os.Getpid()))
 	must(os.MkdirAll(dir, 0o755))
 	defer os.RemoveAll(dir)
@@ -450,6 +450,56 @@ func TestC10(t *testing.T) {
 			}
 		}
 		r.Nontrivial(tb.desc)
+	}
+	// 3k3y images with an embedded key, opened the way the server opens them (through the serving filesystem): the
+	// watermark / key area 0xF70..0x1070 spans sectors 1 and 2, so tables whose first plain region ends at sector 1, 2
+	// or 3 put part of that area into an encrypted region - decryption first, then the zeroing, nothing else altered
+	k3root := filepath.Join(dir, "k3root")
+	for ti, tb := range tables {
+		if classifyTable(tb.count, tb.pairs) != "valid" || tb.count > 3 || tb.pairs[1] > 3 || tb.pairs[len(tb.pairs)-1] >= c10Sectors+2 {
+			continue
+		}
+		caseIdx++
+		if !r.Mine(caseIdx) || r.TimeUp() {
+			continue
+		}
+		key := c10Keys[ti%len(c10Keys)]
+		plain := patBytes(byte(90+ti%7), 0, c10Sectors*2048)
+		copy(plain, regionTable(tb.pairs))
+		copy(plain[0xF70:], wmEnc)
+		copy(plain[0xF80:], key)
+		edisk := buildEncImage(plain, tb.pairs, key)
+		writeFileAbs(filepath.Join(k3root, "k3", "e.iso"), edisk, baseTime)
+		want := zeroMask(refDecryptImage(edisk, tb.pairs, key, false))
+		desc := "3k3y image with embedded key, table " + tb.desc
+		r.State(desc)
+		r.Nontrivial(desc)
+		r.Eval(1)
+		f, err := (&pfs.FS{Fs: afero.NewBasePathFs(osfs, k3root)}).OpenFile("/k3/e.iso", os.O_RDONLY, 0)
+		if err != nil {
+			r.Violation("C10:3k3y-open-failed", desc+": "+err.Error(), map[string]any{"table": tb.pairs})
+			continue
+		}
+		st := &ioState{}
+		var ops []ioOp
+		for _, off := range []int64{0, 0xF6F, 0xF70, 0xF80, 0xFFF, 0x1000, 0x1001, 0x106F, 0x1070, 0x1071, 0x17FF, 0x1800, 2048 * 3} {
+			ops = append(ops, ioOp{Kind: "readat", N: 300, Off: off}, ioOp{Kind: "seek", Off: off, Whence: io.SeekStart}, ioOp{Kind: "read", N: 2049})
+		}
+		ops = append(ops, ioOp{Kind: "seek", Off: 0, Whence: io.SeekStart})
+		for i := 0; i < c10Sectors*2048/3000+2; i++ {
+			ops = append(ops, ioOp{Kind: "read", N: 3000})
+		}
+		for i, op := range ops {
+			why, class := applyOp(f, want, st, op, nil)
+			r.Transition(1)
+			if why != "" {
+				r.Outcome("3k3y-view-bad")
+				r.Violation("C10:3k3y-view:"+class, sprintf("%s: step %d %v: %s", desc, i, op, why), map[string]any{"table": tb.pairs, "ops": ops[:i+1]})
+				break
+			}
+		}
+		f.Close()
+		r.Outcome("3k3y-view-ok")
 	}
 	r.Assume("crypto/aes block primitive is correct; reference CBC/key derivation are written here on raw block calls and cross-checked against openssl in TestRefCryptoOpenssl when openssl is present")
 }
